@@ -369,7 +369,10 @@ class Rig:
             except Exception:
                 pass
             try:
-                await self.storage.close()
+                # a relay whose query threads are known to be stuck cannot be closed in an orderly way
+                # (LMDBStorage.close() joins its pool): the worker process is simply left behind
+                if not getattr(self, "abandon", False):
+                    await self.storage.close()
             except Exception:
                 pass
         from nostr_relay.util import Periodic
